@@ -1,15 +1,40 @@
-import Sop.Lemmas.BTree
+import Sop.Lemmas.BTreeReadAll
 /-!
 # C18 — key search positions the cursor so range scans return exactly the range
 
-PROVED: `C18_scan_exact` — on every well-formed tree (any size), starting at the first item of the
-in-order contents whose key is `≥ a` — where `Find(a, first)` lands on a hit, and where it lands on
-a miss unless `a` is beyond the last key — and walking forward while the key is `≤ b` visits exactly
-the items with `a ≤ key ≤ b`, in key order (and the mirrored statement for descending scans).
-NOT PROVED (stated as `Statement_C18_find`, `Statement_C18_range`; explored by the driver, which
-evaluates `Spec.accepts` for every `find`/`findDesc`/`findWithID`/`range`/`rangeDesc` call): that the
-transcribed `find` / `findInDescendingOrder` / `moveToNext` / `moveToPrevious` realise "lower bound" and
-"successor" on the heap representation.
+Everything below is about Model B (`Sop/Model/BTree.lean`) and holds for EVERY well-formed tree `WF t`
+(any size, any slot length, nil children allowed, unique or duplicate keys):
+
+* `C18_first`, `C18_last`, `C18_next`, `C18_prev` — `First`/`Last` put the cursor on the first/last item of the
+  in-order contents `abs`, `Next`/`Previous` move it to the in-order successor/predecessor and answer false
+  exactly at the end;
+* `C18_scan_forward`, `C18_scan_backward` — `First` then `Next`… reads exactly `abs`, `Last` then `Previous`…
+  reads exactly `abs.reverse`;
+* `C18_find`, `C18_find_lower_bound` — `Find(k, first)` answers true iff `k` is stored, a hit leaves the cursor on
+  the FIRST item with key `k` (lower bound), a miss leaves it on the first greater item or on the item just
+  before it (the code parks on the predecessor when the descent ends past the last slot of a node);
+* `C18_range_asc` — the ascending `Range(a, b)` returns exactly the items with `a ≤ key ≤ b`, in order;
+* `C18_scan_exact`, `C18_range_sorted`, `C18_sort_search`, `C18_node_search_lower_bound` — list-level facts.
+
+`CursorPos t t' L R` (Lemmas/BTreeOps.lean) is the precise cursor statement: `t'` is `t` up to memoised
+child indices and the cursor, has not panicked, and its cursor designates an occupied slot of a node
+reachable from the root that is the head of `R` in `abs = L ++ R` (a structural position, not a value
+comparison, so it can be chained).  WF clauses used: tree shape (`Nodup (reach …)`) and parent links for
+the climbs; array sizes, zeroed children tail and the memo bounds for `getIndexOfChild`; "non-root nodes are
+not empty" for `First`/`Last`/descents/`Find` misses; sortedness with separator bounds only through
+`abs` being sorted (`Find`, `Range`); liveness of items for `Range`'s miss branch; `Count = |abs|` for the
+public wrappers' emptiness test and loop bounds.  `2 ≤ sl`, `sl` even are not used on the read side.
+
+* `C18_find_desc`, `C18_range_desc`, `C18_range` — the mirror image for `FindInDescendingOrder` (cursor on the LAST
+  item of key `k`) and `RangeDesc(a, b)` (exactly the items with `b ≤ key ≤ a`, descending); `C18_range` is the
+  former `Statement_C18_range`.
+
+* `C18_find_any`, `C18_find_with_id`, `C18_range_state` — `Find(k, false)` including its (repaired) fast path,
+  `FindWithID` (repaired), and the iterators' final state.  Every stored node of a well-formed repository is
+  reachable (`WF.all_reachable`), so ANY cursor that passes the guards of `Next`/`Previous` is a position.
+
+Nothing of C18 is left as "stated only"; the remaining assumption is the tie between Model B and the Go code
+(correspondence run) and, for the legacy code (`fixFast = false`, `fixId = false`), the known findings.
 -/
 namespace Sop.C18
 open Sop.BTree
@@ -19,8 +44,11 @@ set_option maxRecDepth 100000
 def CursorAt (t : BTree) (i : Nat) : Prop :=
   t.cur.node ≠ 0 ∧ t.abs[i]? = some t.curItem
 
+/-- full-strength statement about `Find(k, true)`; the cursor hypothesis `CursorValid` (the cached item of a
+    previous call can be read: always true after `First/Last/Next/Previous/Find/Remove`) is needed because
+    `Find` first dereferences the current item. PROVED below as `C18_find`. -/
 def Statement_C18_find : Prop :=
-  ∀ (t : BTree) (k : Int), WF t → t.panicked = false →
+  ∀ (t : BTree) (k : Int), WF t → t.panicked = false → CursorValid t →
     let r := t.find k true
     (r.2 = true ↔ hasKey t.abs k = true) ∧
     (r.2 = true → CursorAt r.1 (t.abs.findIdx (fun x => x.key == k))) ∧
@@ -28,10 +56,202 @@ def Statement_C18_find : Prop :=
     (r.2 = false → t.abs ≠ [] →
       CursorAt r.1 (t.abs.findIdx (fun x => decide (x.key > k))) ∨ CursorAt r.1 (t.abs.findIdx (fun x => decide (x.key > k)) - 1))
 
+/-- full-strength statement about the range iterators (the cursor hypothesis is explicit because `Find`
+    dereferences the current item first). PROVED below as `C18_range`. -/
 def Statement_C18_range : Prop :=
-  ∀ (t : BTree) (a b : Int), WF t → t.panicked = false →
+  ∀ (t : BTree) (a b : Int), WF t → t.panicked = false → CursorValid t →
     (t.range a b true).2.map (·.key) = (t.abs.filter (inRange a b)).map (·.key) ∧
     (t.range a b false).2.map (·.key) = ((t.abs.filter (inRange b a)).map (·.key)).reverse
+
+/-! ### First / Last / Next / Previous -/
+
+/-- what a cursor position means: the contents split as `L ++ x :: R'`, unchanged by the call, and the cursor reads `x` -/
+theorem C18_cursorPos_meaning {t t' : BTree} (hwf : WF t) {L R : List Item} (h : CursorPos t t' L R) :
+    WF t' ∧ t'.panicked = false ∧ t'.abs = t.abs ∧ t.abs = L ++ R ∧ t'.cur.node ≠ 0 ∧
+      ∃ x R', R = x :: R' ∧ t'.curItem = x ∧ CursorAt t' L.length := by
+  have hr : t.root ≠ 0 := by
+    obtain ⟨_, _, _, _, _, _, _, _, nd, hg, _⟩ := h
+    exact hwf.root_ne_of_get hg
+  have hw := hwf.wfr hr
+  obtain ⟨h1, h2, x, R', hR, hx⟩ := cursorPos_abs hw h
+  refine ⟨WF_heapEq h.1 hwf, h.2.1, abs_heapEq h.1, h1, cursorPos_node_ne hw h, x, R', hR, hx, cursorPos_node_ne hw h, ?_⟩
+  rw [h2, hR, hx]
+  simp
+
+/-- `First` on a non-empty well-formed tree: true, cursor on the first item of `abs` -/
+theorem C18_first (t : BTree) (hwf : WF t) (hp : t.panicked = false) :
+    (t.abs = [] → t.first = (t, false)) ∧
+    (t.abs ≠ [] → t.first.2 = true ∧ CursorPos t t.first.1 [] t.abs) := by
+  refine ⟨fun hne => ?_, fun hne => ⟨(first_spec hwf hp hne).1, (first_spec hwf hp hne).2.1⟩⟩
+  have hc : (t.count == 0) = true := by
+    have := (abs_sorted_of_WF t hwf).2.2
+    rw [hne] at this; simp [this]
+  unfold BTree.first; simp [hc]
+
+/-- `Last` on a non-empty well-formed tree: true, cursor on the last item of `abs` -/
+theorem C18_last (t : BTree) (hwf : WF t) (hp : t.panicked = false) :
+    (t.abs = [] → t.last = (t, false)) ∧
+    (t.abs ≠ [] → t.last.2 = true ∧ ∃ L x, t.abs = L ++ [x] ∧ CursorPos t t.last.1 L [x]) := by
+  refine ⟨fun hne => ?_, fun hne => ?_⟩
+  · have hc : (t.count == 0) = true := by
+      have := (abs_sorted_of_WF t hwf).2.2
+      rw [hne] at this; simp [this]
+    unfold BTree.last; simp [hc]
+  · obtain ⟨h1, L, x, h2, h3, _⟩ := last_spec hwf hp hne
+    exact ⟨h1, L, x, h2, h3⟩
+
+/-- `Next` from the position `L | x :: R`: false at the end, otherwise true with the cursor on the head of `R` -/
+theorem C18_next {t₀ t : BTree} (hwf : WF t₀) {L R : List Item} {x : Item} (h : CursorPos t₀ t L (x :: R)) :
+    (R = [] → t.next.2 = false) ∧ (R ≠ [] → t.next.2 = true ∧ CursorPos t₀ t.next.1 (L ++ [x]) R) := by
+  obtain ⟨_, _, h1, h2⟩ := next_spec hwf h
+  exact ⟨h1, fun hR => ⟨(h2 hR).1, (h2 hR).2.1⟩⟩
+
+/-- `Previous` from the position `L | R`: false at the start, otherwise true with the cursor on the last item of `L` -/
+theorem C18_prev {t₀ t : BTree} (hwf : WF t₀) {L R : List Item} (h : CursorPos t₀ t L R) :
+    (L = [] → t.prev.2 = false) ∧
+    (L ≠ [] → t.prev.2 = true ∧ ∃ L' x, L = L' ++ [x] ∧ CursorPos t₀ t.prev.1 L' (x :: R)) := by
+  obtain ⟨_, _, h1, h2⟩ := prev_spec hwf h
+  refine ⟨h1, fun hL => ?_⟩
+  obtain ⟨a, L', x, b, c, _⟩ := h2 hL
+  exact ⟨a, L', x, b, c⟩
+
+/-- `First`, then `Next` until it answers false, reads exactly the in-order contents -/
+theorem C18_scan_forward (t : BTree) (hwf : WF t) (hp : t.panicked = false) : t.scanAll = t.abs :=
+  scanAll_eq_abs hwf hp
+
+/-- `Last`, then `Previous` until it answers false, reads exactly the in-order contents backwards -/
+theorem C18_scan_backward (t : BTree) (hwf : WF t) (hp : t.panicked = false) : t.scanAllDesc = t.abs.reverse :=
+  scanAllDesc_eq_abs_reverse hwf hp
+
+/-! ### Find -/
+
+/-- `Find(k, true)` in terms of positions: a hit ⇒ the cursor is on an item of key `k` and everything before it is
+    smaller (first of the run of equal keys = lower bound); a miss ⇒ `abs = Lo ++ Hi` with `Lo < k < Hi` and the
+    cursor is on the head of `Hi` or on the last item of `Lo` -/
+theorem C18_find_lower_bound (t : BTree) (k : Int) (hwf : WF t) (hp : t.panicked = false) (hv : CursorValid t)
+    (hne : t.abs ≠ []) :
+    ((t.find k true).2 = true ∧ ∃ L y R, CursorPos t (t.find k true).1 L (y :: R) ∧ y.key = k ∧ ∀ x ∈ L, x.key < k) ∨
+    ((t.find k true).2 = false ∧ ∃ Lo Hi, (∀ x ∈ Lo, x.key < k) ∧ (∀ x ∈ Hi, k < x.key) ∧
+      (CursorPos t (t.find k true).1 Lo Hi ∨ ∃ Lo' x, Lo = Lo' ++ [x] ∧ CursorPos t (t.find k true).1 Lo' (x :: Hi))) :=
+  (find_spec hwf hp hv hne k).2.2.2
+
+theorem findIdx_skip {p : Item → Bool} : ∀ (L R : List Item), (∀ x ∈ L, p x = false) →
+    (L ++ R).findIdx p = L.length + R.findIdx p
+  | [], R, _ => by simp
+  | x :: L, R, h => by
+    rw [List.cons_append, List.findIdx_cons, h x List.mem_cons_self,
+      findIdx_skip L R (fun y hy => h y (List.mem_cons_of_mem _ hy))]
+    simp; omega
+
+theorem hasKey_iff {l : List Item} {k : Int} : hasKey l k = true ↔ ∃ x ∈ l, x.key = k := by
+  simp [hasKey]
+
+/-- `Statement_C18_find` holds -/
+theorem C18_find : Statement_C18_find := by
+  intro t k hwf hp hv
+  by_cases hne : t.abs = []
+  · have hc : (t.count == 0) = true := by
+      have := (abs_sorted_of_WF t hwf).2.2
+      rw [hne] at this; simp [this]
+    have : t.find k true = (t, false) := by unfold BTree.find; simp [hc]
+    simp only [this, hne]
+    exact ⟨by simp [hasKey], by simp, fun _ h => absurd rfl h⟩
+  · rcases C18_find_lower_bound t k hwf hp hv hne with ⟨hr, L, y, R, hpos, hy, hL⟩ | ⟨hr, Lo, Hi, hLo, hHi, hpos⟩
+    · obtain ⟨_, _, _, habs, _, x, R', hR, hx, hat⟩ := C18_cursorPos_meaning hwf hpos
+      simp only [List.cons.injEq] at hR
+      obtain ⟨rfl, rfl⟩ := hR
+      have hidx : t.abs.findIdx (fun x => x.key == k) = L.length := by
+        rw [habs, findIdx_skip L _ (fun x hx => by have := hL x hx; simp; omega)]
+        simp [List.findIdx_cons, hy]
+      refine ⟨⟨fun _ => hasKey_iff.mpr ⟨y, by rw [habs]; simp, hy⟩, fun _ => hr⟩, fun _ => by rw [hidx]; exact hat, ?_⟩
+      intro h; rw [hr] at h; exact absurd h (by simp)
+    · have hno : hasKey t.abs k = false := by
+        cases h : hasKey t.abs k with
+        | false => rfl
+        | true =>
+          exfalso
+          obtain ⟨x, hx, hk⟩ := hasKey_iff.mp h
+          have habs : t.abs = Lo ++ Hi := by
+            rcases hpos with hpos | ⟨Lo', x', hLx, hpos⟩
+            · exact (C18_cursorPos_meaning hwf hpos).2.2.2.1
+            · rw [(C18_cursorPos_meaning hwf hpos).2.2.2.1, hLx]; simp
+          rw [habs] at hx
+          rcases List.mem_append.mp hx with hx | hx
+          · have := hLo x hx; omega
+          · have := hHi x hx; omega
+      refine ⟨⟨fun h => by rw [hr] at h; exact absurd h (by simp), fun h => by rw [hno] at h; exact absurd h (by simp)⟩,
+        fun h => by rw [hr] at h; exact absurd h (by simp), fun _ _ => ?_⟩
+      rcases hpos with hpos | ⟨Lo', x', hLx, hpos⟩
+      · obtain ⟨_, _, _, habs, _, x, R', hR, hx, hat⟩ := C18_cursorPos_meaning hwf hpos
+        left
+        have hidx : t.abs.findIdx (fun x => decide (x.key > k)) = Lo.length := by
+          rw [habs, findIdx_skip Lo _ (fun x hx => by have := hLo x hx; simp; omega), hR]
+          have := hHi x (by rw [hR]; simp)
+          simp [List.findIdx_cons, this]
+        rw [hidx]; exact hat
+      · obtain ⟨_, _, _, habs, _, x, R', hR, hx, hat⟩ := C18_cursorPos_meaning hwf hpos
+        right
+        have habs' : t.abs = Lo ++ Hi := by rw [habs, hLx]; simp
+        have hidx : t.abs.findIdx (fun x => decide (x.key > k)) = Lo.length := by
+          rw [habs', findIdx_skip Lo _ (fun x hx => by have := hLo x hx; simp; omega)]
+          cases Hi with
+          | nil => simp
+          | cons y ys =>
+            have := hHi y (by simp)
+            simp [List.findIdx_cons, this]
+        rw [hidx, hLx]
+        simpa using hat
+
+/-! ### Range -/
+
+/-- ascending `Range(a, b)` on a well-formed tree returns exactly the items with `a ≤ key ≤ b`, in key order
+    (the items themselves, not only their keys) -/
+theorem C18_range_asc (t : BTree) (a b : Int) (hwf : WF t) (hp : t.panicked = false) (hv : CursorValid t) :
+    (t.range a b true).2 = t.abs.filter (inRange a b) :=
+  range_asc_spec hwf hp hv (empty_curKey hwf) a b
+
+/-- descending `RangeDesc(a, b)` on a well-formed tree returns exactly the items with `b ≤ key ≤ a`, in descending
+    key order -/
+theorem C18_range_desc (t : BTree) (a b : Int) (hwf : WF t) (hp : t.panicked = false) :
+    (t.range a b false).2 = (t.abs.filter (inRange b a)).reverse :=
+  range_desc_spec hwf hp (empty_curKey hwf) a b
+
+/-- the iterators leave the same tree (up to memoised indices and the cursor), not panicked -/
+theorem C18_range_state (t : BTree) (a b : Int) (asc : Bool) (hwf : WF t) (hp : t.panicked = false) (hv : CursorValid t)
+    (hix : t.cur.node = 0 ∨ 0 ≤ t.cur.idx) :
+    WF (t.range a b asc).1 ∧ (t.range a b asc).1.panicked = false ∧ (t.range a b asc).1.abs = t.abs ∧
+      CursorValid (t.range a b asc).1 := by
+  obtain ⟨h1, h2, h3, _⟩ := range_state hwf hp hv hix a b asc
+  exact ⟨WF_heapEq h1 hwf, h2, abs_heapEq h1, h3⟩
+
+/-- `FindWithID(k, id)` (with the proposed repair `fixId`) answers true iff an item with that key and id is stored -/
+theorem C18_find_with_id (t : BTree) (k : Int) (id : Nat) (hwf : WF t) (hp : t.panicked = false) (hv : CursorValid t)
+    (hix : t.cur.node = 0 ∨ 0 ≤ t.cur.idx) (hfix : t.fixId = true) :
+    ((t.findWithID k id).2 = true ↔ ∃ x ∈ t.abs, x.key = k ∧ x.id = id) :=
+  (findWithID_spec hwf hp hv hix hfix k id).2
+
+/-- `Find(k, false)` — the search used by `Update`/`Remove` — with the repaired fast path (`fixFast`): a hit leaves
+    the cursor on SOME item of key `k`, a miss means `k` is not stored -/
+theorem C18_find_any (t : BTree) (k : Int) (hwf : WF t) (hp : t.panicked = false) (hv : CursorValid t)
+    (hfix : t.fixFast = true) (hne : t.abs ≠ []) :
+    ((t.find k false).2 = true ∧ ∃ L y R, CursorPos t (t.find k false).1 L (y :: R) ∧ y.key = k) ∨
+    ((t.find k false).2 = false ∧ (∀ x ∈ t.abs, x.key ≠ k) ∧ ∃ L R, CursorPos t (t.find k false).1 L R) :=
+  (find_any_spec hwf hp hv hfix hne k).2.2
+
+/-- `Statement_C18_range` holds -/
+theorem C18_range : Statement_C18_range := by
+  intro t a b hwf hp hv
+  rw [C18_range_asc t a b hwf hp hv, C18_range_desc t a b hwf hp]
+  exact ⟨rfl, by rw [List.map_reverse]⟩
+
+/-- `FindInDescendingOrder(k)`: a hit ⇒ the cursor is on an item of key `k`, everything before is `≤ k` and
+    everything after is `> k` (LAST of the run of equal keys); a miss ⇒ as for `Find` -/
+theorem C18_find_desc (t : BTree) (k : Int) (hwf : WF t) (hp : t.panicked = false) (hne : t.abs ≠ []) :
+    ((t.findDesc k).2 = true ∧ ∃ L y R, CursorPos t (t.findDesc k).1 L (y :: R) ∧ y.key = k ∧
+        (∀ x ∈ L, x.key ≤ k) ∧ ∀ x ∈ R, k < x.key) ∨
+    ((t.findDesc k).2 = false ∧ ∃ Lo Hi, (∀ x ∈ Lo, x.key < k) ∧ (∀ x ∈ Hi, k < x.key) ∧
+      (CursorPos t (t.findDesc k).1 Lo Hi ∨ ∃ Lo' x, Lo = Lo' ++ [x] ∧ CursorPos t (t.findDesc k).1 Lo' (x :: Hi))) :=
+  (findDesc_spec hwf hp hne k).2.2.2
 
 /-- ascending: scan from the lower bound of `a` while `≤ b` = exactly the range -/
 theorem C18_scan_exact (t : BTree) (h : WF t) (a b : Int) :
@@ -62,13 +282,17 @@ theorem C18_range_sorted (t : BTree) (h : WF t) (a b : Int) :
   simp only [inRange, Bool.and_eq_true, decide_eq_true_eq] at hr
   exact ⟨hs.2.1 x hm.1, hr.1, hr.2⟩
 
-/-- non-vacuity of `WF`: a small two-level tree (root split at slot length 2) is accepted by the
-    checker. Larger concrete trees are exercised by the correspondence corpus, not in the kernel. -/
+/-- non-vacuity of the hypotheses (`WF`, not panicked, `CursorValid`, non-empty): a small two-level tree (root
+    split at slot length 2) is accepted by the checker. Larger concrete trees are exercised by the
+    correspondence corpus, not in the kernel. -/
 def sample : BTree := (BTree.new 2 false false true).run [.add 10 1, .add 20 2, .add 30 3]
 
 theorem sample_checked : checkWF sample = true := by decide +kernel
 
-theorem C18_sample : WF sample ∧ sample.abs.map (·.key) = [10, 20, 30] :=
-  ⟨checkWF_sound sample sample_checked, by decide +kernel⟩
+theorem C18_sample : WF sample ∧ sample.abs.map (·.key) = [10, 20, 30] ∧ sample.panicked = false ∧
+    CursorValid sample ∧ sample.abs ≠ [] := by
+  have h1 : sample.abs.map (·.key) = [10, 20, 30] := by decide +kernel
+  refine ⟨checkWF_sound sample sample_checked, h1, by decide +kernel, Or.inl (by decide +kernel), ?_⟩
+  intro h; rw [h] at h1; simp at h1
 
 end Sop.C18
